@@ -97,6 +97,12 @@ type libOp struct {
 	// Careless: the caller ignores every error the library returns, never
 	// unlinks anything and keeps using whatever File it was handed.
 	Careless bool `json:"careless,omitempty"`
+	// ReuseFor: the caller computes its digests into one pair of buffers:
+	// once Create has returned it computes those of its next input - key
+	// ReuseFor-1 - into the same buffers, while the entry is still being
+	// written (0: it does not). The entry was created for the key the
+	// buffers held then; nobody may be served it under the other.
+	ReuseFor int `json:"reuse_for,omitempty"`
 }
 
 type libScenario struct {
@@ -323,9 +329,20 @@ func (r *libRun) putFaults(op libOp, faults []simos.Fault, pl *simos.PowerLoss) 
 	body := op.Body.bytes()
 	spec := simos.ProcSpec{PowerLoss: pl, Faults: faults}
 	killed, pnc, p = r.inProc(spec, func() {
-		f, err := cache.CreateLevel(libCacheDir, r.h, r.arg(k[0]), r.arg(k[1]), op.Level)
+		a0, a1 := r.arg(k[0]), r.arg(k[1])
+		if op.ReuseFor > 0 {
+			a0, a1 = append([]byte(nil), k[0]...), append([]byte(nil), k[1]...)
+		}
+		f, err := cache.CreateLevel(libCacheDir, r.h, a0, a1, op.Level)
 		if f == nil {
 			return
+		}
+		if op.ReuseFor > 0 {
+			o := r.keys0[(op.ReuseFor-1)%len(r.keys0)]
+			if len(o[0]) == len(a0) && len(o[1]) == len(a1) {
+				copy(a0, o[0])
+				copy(a1, o[1])
+			}
 		}
 		if op.Careless {
 			rest := body
@@ -548,6 +565,13 @@ func (r *libRun) doPut(op libOp, mk func() *libScenario) {
 	image, _ := r.w.GetFile(path)
 	body := op.Body.bytes()
 	r.lastTrace, r.lastLog, r.lastPre, r.lastPreOK = p.Trace, r.w.WriteLog(path), pre, preOK
+	if op.ReuseFor > 0 {
+		// whatever this left under the key's name, the caller has no claim
+		// that it opens; what must not happen is that it opens for ANOTHER key
+		r.probe("digest_buffers_reused_while_entry_pending")
+		r.legit[op.Key] = nil
+		return
+	}
 	if !acked {
 		// The library refused a fault-free write; nothing was acknowledged.
 		r.probe("put_not_acked_fault_free")
